@@ -173,6 +173,10 @@ var extraNames = []string{"Server", "Date", "X-Powered-By", "Sec-WebSocket-Versi
 	"Connection-Id", "X-Upgrade", "Sec-WebSocket-Accept2", "Sec-WebSocket-Accep", "Content-Length", "Set-Cookie", "Via", "Upgrad", "Connectio", "x", "Sec-WebSocket-Protocols", "Sec-WebSocket-Extension"}
 var extraValues = []string{"", "x", "gobwas", "Upgrade: websocket", "websocket", "Upgrade", "0", "5", "a=b; Path=/", "Thu, 01 Oct 2026 00:00:00 GMT", "HTTP/1.1 101 Switching Protocols", "ünïcödé", ":", "::"}
 
+// TwoTokenStatusLines are first lines with fewer than the two mandatory SP separators.
+var TwoTokenStatusLines = []string{"HTTP/1.1 101", "HTTP/1.1 400", "HTTP/1.1 200", "HTTP/1.1", "101 Switching", "HTTP/1.1\t101 x", "HTTP/1.1\t101\tSwitching",
+	"HTTP/1.1 101\tSwitching", "HTTP/1.1101 Switching", "101", "HTTP/1.2 101", "HTTP/1.1 0101"}
+
 // Prefixes are byte strings put before the status line: the first line of such
 // a response is not a status line.
 var Prefixes = []string{"\r\n", "\n", "\r", " ", "\t", "\r\n\r\n", "\n\n", "\r\n\n", " \r\n", "\r\n ", "\n\r\n\r\n"}
@@ -415,8 +419,12 @@ func Gen(t *rapid.T, label string, cfg Config, o Opts) *Response {
 			} else {
 				r.Version = rapid.SampledFrom(VersionTokens).Draw(t, L("badversion"))
 			}
-		case 4:
-			r.NoReasonSP = true
+		case 4: // a status line with fewer than two separators
+			if rapid.Bool().Draw(t, L("nosp")) {
+				r.NoReasonSP = true
+			} else {
+				r.RawStatusLine = rapid.SampledFrom(TwoTokenStatusLines).Draw(t, L("rawstatus"))
+			}
 		case 5, 6, 7: // Upgrade
 			ups = deviate(t, L("updev"), ups, func(l Line) Line {
 				pool := upgradeWrong
